@@ -484,3 +484,22 @@ impl<L: Localize> Iterator for TimeDomainIterator<L> {
         }
     }
 }
+
+/// Verification hooks, compiled only with the `verif` feature.
+#[cfg(feature = "verif")]
+impl<L: Localize> OpeningHours<L> {
+    /// Build an evaluator from an expression that did not go through `parse`.
+    pub fn verif_from_expression(expr: OpeningHoursExpression, ctx: Context<L>) -> Self {
+        Self { expr: Arc::new(expr), ctx }
+    }
+
+    /// Read access to the wrapped expression.
+    pub fn verif_expression(&self) -> &OpeningHoursExpression {
+        &self.expr
+    }
+
+    /// Public view of the private `next_change_hint`.
+    pub fn verif_next_change_hint(&self, date: NaiveDate) -> Option<NaiveDate> {
+        self.next_change_hint(date)
+    }
+}
